@@ -37,7 +37,7 @@ PROB = {
     'numpy': {'xref': '`nopeX`', 'param': 'Parameters\n----------\nzzX: int\n    nothing'},
 }
 POSITIONS = ['p1l1', 'p1l2', 'p2', 'li', 'fb']
-OWNERS = ['module', 'class', 'function', 'method', 'attribute']
+OWNERS = ['module', 'class', 'function', 'method', 'attribute', 'inherited', 'reexported']
 # (text on the opening line, leading lines below the quotes)
 LAYOUTS: List[Tuple[bool, List[str]]] = [(True, []), (False, []), (False, ['']), (False, ['', '']), (False, ['WS']), (False, ['TRAIL'])]
 
@@ -85,6 +85,8 @@ def module_source(owner: str, fmt: str, kind: str, pos: str, layout: Tuple[bool,
         return None
     if pos == 'fb' and owner in ('module', 'attribute', 'class'):
         return None
+    if owner in ('inherited', 'reexported') and (nest or raw or layout[1] not in ([], [''])):
+        return None          # these owners vary the location of the object, not the layout of the literal
     first_on_open, lead = layout
     q = ('r' if raw else '') + '"""'
 
@@ -130,11 +132,19 @@ def module_source(owner: str, fmt: str, kind: str, pos: str, layout: Tuple[bool,
         lines += pre + ([ind + ('@staticmethod' if nest else '@deco')] if deco else []) + [ind + ('def f(a):' if (not nest or deco) else 'def f(self, a):')]
         base = len(lines)
         lines += d + [ind + '    pass']
-    elif owner == 'method':
+    elif owner in ('method', 'inherited'):
         d, off = doc(ind + '        ')
         lines += pre + [ind + 'class K:', ind + '    def m(self, a):']
         base = len(lines)
         lines += d + [ind + '        pass']
+        if owner == 'inherited':
+            # the docstring is shown again on an overriding method without docstring, here and in a companion module
+            lines += ['class Sub(K):', '    def m(self, a):', '        pass']
+    elif owner == 'reexported':
+        d, off = doc('    ')
+        lines += ['def REEXPORTED(a):']
+        base = len(lines)
+        lines += d + ['    pass']
     else:
         d, off = doc(ind)
         lines += pre + [ind + 'v = 1']
@@ -171,6 +181,7 @@ def cases(tier: str) -> Iterable[Tuple[Any, ...]]:
 def run_batch(fmt: str, batch: Sequence[Tuple[Any, ...]], res: Dict[str, Any]) -> None:
     files: Dict[str, str] = {'pk/__init__.py': ''}
     meta: Dict[str, Tuple[Any, ...]] = {}
+    reexports: List[str] = []
     n = 0
     for (f, kind, owner, pos, li, nest, raw, deco, offsets) in batch:
         for k in offsets:
@@ -179,8 +190,16 @@ def run_batch(fmt: str, batch: Sequence[Tuple[Any, ...]], res: Dict[str, Any]) -
             src, pl, bs, ext = ms
             name = f'm{n:03d}'
             n += 1
+            if owner == 'reexported':
+                src = src.replace('REEXPORTED', f'f_{name}')
+                files['pk/__init__.py'] += f'from .{name} import f_{name}\n'
+                reexports.append(f'f_{name}')
+            if owner == 'inherited':
+                files[f'pk/x{name}.py'] = f'from .{name} import K\nclass Other(K):\n    def m(self, a):\n        pass\n'
             files[f'pk/{name}.py'] = src
             meta[name] = (kind, owner, pos, li, nest, raw, deco, k, pl, bs, ext, src)
+    if reexports:
+        files['pk/__init__.py'] += '__all__ = ' + repr(reexports) + '\n'
     with pd.cli_run(files, ['--docformat', fmt, '-W'], roots=['pk']) as r:
         if r.exc or r.status not in (0, 2, 3):
             res['violations'].append(core.violation(f'run-failed/{r.exc_type}@{r.exc_site}', f'driver failed: {r.exc_type} {r.status}', {'kind': 'batch', 'fmt': fmt, 'batch': [list(b) for b in batch]}))
@@ -190,6 +209,13 @@ def run_batch(fmt: str, batch: Sequence[Tuple[Any, ...]], res: Dict[str, Any]) -
             m = re.match(r'<R>/pk/(m\d+)\.py:(\d+|\?\?\?): (.*)', line)
             if m:
                 rep.setdefault(m.group(1), []).append((m.group(2), m.group(3)))
+                continue
+            m = re.match(r'<R>/pk/(x(m\d+)|__init__)\.py:(\d+|\?\?\?): (.*)', line)
+            if m:
+                # a file that contains no docstring at fault: the companion module of an inherited docstring or the re-exporting __init__
+                which = 'inheriting-module' if m.group(2) else 're-exporting-module'
+                res['violations'].append(core.violation(f'wrong-file/{fmt}/{which}', f'a problem is reported against {m.group(1)}.py, which contains no docstring at fault: {line}',
+                                                        {'kind': 'batch', 'fmt': fmt, 'batch': [list(b) for b in batch]}))
         anyline = bool(rep)
         if (r.status == 3) != anyline:
             res['violations'].append(core.violation('status/with-W', f'-W run: status {r.status} but {"some" if anyline else "no"} problem lines were printed',
